@@ -46,6 +46,9 @@ func VerifC20_Schemes() {
 		{"/dns/example.com/tcp/443/tls/http", "https"},
 		{"/ip4/1.2.3.4/tcp/80/http", "http"},
 		{"/ip4/1.2.3.4/tcp/80/http/http-path/a%2Fb", "http"},
+		// TLS with a server name between tls and http
+		{"/ip4/1.2.3.4/tcp/443/tls/sni/pub.example.net/http", "https"},
+		{"/dns/example.com/tcp/443/tls/sni/example.com/http/http-path/x", "https"},
 	} {
 		m, err := multiaddr.NewMultiaddr(c.ma)
 		verif_Assume(err == nil)
